@@ -497,7 +497,8 @@ Error String::_op_vformat(ModifyOp op, const char* fmt, va_list ap) noexcept {
   va_copy(ap_copy, ap);
 
   if (remaining_capacity >= 128) {
-    fmt_result = vsnprintf(data() + start_at, remaining_capacity, fmt, ap);
+    // The buffer always has room for `capacity() + 1` characters (the null terminator is not part of the capacity).
+    fmt_result = vsnprintf(data() + start_at, remaining_capacity + 1u, fmt, ap);
     output_size = size_t(fmt_result);
 
     if (ASMJIT_LIKELY(output_size <= remaining_capacity)) {
